@@ -1,0 +1,121 @@
+//! Verification hook (only compiled with `--cfg indicatif_verif`).
+//!
+//! A drop-in replacement for `std::time::Instant` that reads a process-wide mock clock, so that
+//! an external harness can drive every time-dependent code path (rate limiters, estimator,
+//! elapsed time) through the public API with synthetic instants.  With the cfg off this file is
+//! not part of the crate.
+
+use std::ops::{Add, AddAssign, Sub, SubAssign};
+use std::sync::atomic::{AtomicU64, Ordering};
+use std::time::Duration;
+
+/// Nanoseconds of the mock clock.  Starts far from zero so that `checked_sub` has room.
+static CLOCK_NS: AtomicU64 = AtomicU64::new(ORIGIN_NS);
+/// Added to the clock by every `Instant::now()` call (after reading it).
+static AUTO_STEP_NS: AtomicU64 = AtomicU64::new(0);
+
+/// The value the mock clock has when the process starts.
+pub const ORIGIN_NS: u64 = 1_000_000_000_000_000;
+
+/// Set the mock clock (absolute nanoseconds).
+pub fn set_clock_ns(ns: u64) {
+    CLOCK_NS.store(ns, Ordering::SeqCst);
+}
+
+/// Read the mock clock (absolute nanoseconds).
+pub fn clock_ns() -> u64 {
+    CLOCK_NS.load(Ordering::SeqCst)
+}
+
+/// Advance the mock clock.
+pub fn advance_clock_ns(ns: u64) {
+    CLOCK_NS.fetch_add(ns, Ordering::SeqCst);
+}
+
+/// Make every `Instant::now()` advance the clock by `ns` after reading it.
+pub fn set_auto_step_ns(ns: u64) {
+    AUTO_STEP_NS.store(ns, Ordering::SeqCst);
+}
+
+#[derive(Clone, Copy, Debug, PartialEq, Eq, PartialOrd, Ord, Hash)]
+pub struct Instant(u64);
+
+impl Instant {
+    pub fn now() -> Self {
+        let step = AUTO_STEP_NS.load(Ordering::SeqCst);
+        Self(CLOCK_NS.fetch_add(step, Ordering::SeqCst))
+    }
+
+    pub fn from_ns(ns: u64) -> Self {
+        Self(ns)
+    }
+
+    pub fn as_ns(&self) -> u64 {
+        self.0
+    }
+
+    pub fn elapsed(&self) -> Duration {
+        Self::now().saturating_duration_since(*self)
+    }
+
+    pub fn duration_since(&self, earlier: Self) -> Duration {
+        self.saturating_duration_since(earlier)
+    }
+
+    pub fn saturating_duration_since(&self, earlier: Self) -> Duration {
+        Duration::from_nanos(self.0.saturating_sub(earlier.0))
+    }
+
+    pub fn checked_duration_since(&self, earlier: Self) -> Option<Duration> {
+        self.0.checked_sub(earlier.0).map(Duration::from_nanos)
+    }
+
+    pub fn checked_add(&self, d: Duration) -> Option<Self> {
+        u64::try_from(d.as_nanos())
+            .ok()
+            .and_then(|d| self.0.checked_add(d))
+            .map(Self)
+    }
+
+    pub fn checked_sub(&self, d: Duration) -> Option<Self> {
+        u64::try_from(d.as_nanos())
+            .ok()
+            .and_then(|d| self.0.checked_sub(d))
+            .map(Self)
+    }
+}
+
+impl Add<Duration> for Instant {
+    type Output = Self;
+    fn add(self, rhs: Duration) -> Self {
+        self.checked_add(rhs)
+            .expect("overflow when adding duration to instant")
+    }
+}
+
+impl AddAssign<Duration> for Instant {
+    fn add_assign(&mut self, rhs: Duration) {
+        *self = *self + rhs;
+    }
+}
+
+impl Sub<Duration> for Instant {
+    type Output = Self;
+    fn sub(self, rhs: Duration) -> Self {
+        self.checked_sub(rhs)
+            .expect("overflow when subtracting duration from instant")
+    }
+}
+
+impl SubAssign<Duration> for Instant {
+    fn sub_assign(&mut self, rhs: Duration) {
+        *self = *self - rhs;
+    }
+}
+
+impl Sub<Instant> for Instant {
+    type Output = Duration;
+    fn sub(self, rhs: Instant) -> Duration {
+        self.saturating_duration_since(rhs)
+    }
+}
